@@ -84,3 +84,26 @@ package protocol
 //@   ensures [zero] implies(s == 0, result == -1)
 //@   ensures [value] implies(s > 0, result == ite(stype == StreamTypeBidi, ite(pers == PerspectiveClient, 0, 1), ite(pers == PerspectiveClient, 2, 3)) + 4 * (s - 1))
 //@   modifies nothing
+
+// ---------------- connection ID generation (C10) ----------------
+//@ func GenerateConnectionID
+//@   props C10
+//@   requires 0 <= l && l <= 20
+//@   ensures [length] result0.l == l
+//@   modifies nothing
+
+//@ func GenerateConnectionIDForInitialWithLen
+//@   props C10
+//@   requires 0 <= l && l <= 20
+//@   ensures [length] result0.l == l
+//@   modifies nothing
+
+//@ func (g *ExpEmptyConnectionIDGenerator) GenerateConnectionID
+//@   props C10
+//@   ensures [empty] result0.l == 0
+//@   modifies nothing
+
+//@ func (g *ExpEmptyConnectionIDGenerator) ConnectionIDLen
+//@   props C10
+//@   ensures result == 0
+//@   modifies nothing
